@@ -213,7 +213,7 @@ def run(ctx):
             continue
         fam = corpusarm.family(j['file']) if j['file'].startswith(vlib.REPO) else 'generated'
         if sig.startswith('fault.'):
-            s2 = 'fault:format=%s:%s:%s:%s' % (j['format'], 'force' if j['force'] else 'noforce', fault_kind(r['msg']) if r['outcome'] != 'hang' else 'hang', top_fq_frame(r['msg']))
+            s2 = 'fault:%s:%s' % (fault_kind(r['msg']) if r['outcome'] != 'hang' else 'hang', top_fq_frame(r['msg']))   # the faulting function is the defect; the requested format is only the path to it
         else:
             s2 = '%s:format=%s' % (sig, j['format'])
         ctx.finding(s2, '%s; %s' % (j['ob'], (r['msg'] or '').strip().split('\n')[0][:160]), dict(job=j, outcome=r['outcome'], msg=(r['msg'] or '')[:3000]))
@@ -254,5 +254,5 @@ def replay(ctx, path):
     ctx.cov['evaluations'] = 1; ctx.cov['distinct_nontrivial'] = 2; ctx.cov['rule'] = 'replay of one recorded decode run'
     ctx.sample(dict(kind='replayed decode run', job={k: j[k] for k in ('file', 'format', 'force', 'mut')}, outcome=r['outcome']))
     if r['outcome'] != 'ok':
-        ctx.finding('fault:format=%s:%s:%s:%s' % (j['format'], 'force' if j['force'] else 'noforce', fault_kind(r['msg']) if r['outcome'] != 'hang' else 'hang', top_fq_frame(r['msg'])),
+        ctx.finding('fault:%s:%s' % (fault_kind(r['msg']) if r['outcome'] != 'hang' else 'hang', top_fq_frame(r['msg'])),
                     '%s; %s' % (j.get('ob', ''), (r['msg'] or '').strip().split('\n')[0][:160]), dict(job=j, outcome=r['outcome'], msg=(r['msg'] or '')[:3000]))
